@@ -91,6 +91,17 @@ void holder_died(int id, int v, bool ok, const char *kind) {
 }
 void holder_value(int id, int v) { Guard g; sim_obj_value(id, v); }
 
+// ---------------------------------------------------------------- structs
+int ptSum(const Pt *p) { Guard g; return p->x * 10 + static_cast<int>(p->y * 2); }
+void ptOut(Pt *p, int x) { Guard g; p->x = x; p->y = x + 0.5; }
+void ptScale(Pt *p, int k) { Guard g; p->x *= k; p->y *= k; }
+int arrTotal(const Arr *a) {
+    Guard g;
+    int t = 0;
+    for (int i = 0; i < a->n && a->vals; i++) t += a->vals[i];
+    return t + 1000 * (a->name ? static_cast<int>(std::strlen(a->name)) : 77);
+}
+
 // ---------------------------------------------------------------- factories
 Item *makeItem(int v) { Guard g; return new Item(v); }
 Item *borrowItem() {
